@@ -107,6 +107,7 @@ def uncovered(prop_id, seed, tools):
                 continue
             miss.append(text.strip())
         res[rel] = miss
+    shutil.rmtree(work, ignore_errors=True)          # case dumps and raw profiles are large: keep nothing
     return res
 
 
